@@ -5,6 +5,6 @@ WT=/tmp/trypatch/$$
 mkdir -p /tmp/trypatch
 git -C /repo worktree add -q --detach $WT HEAD
 ( cd $WT && git apply $P ) || { echo "patch does not apply"; }
-if grep -q 'lexer\.l' $P; then ( cd $WT/Compiler && flex --outfile=./src/lex.yy.c --header-file=./include/lex.yy.h --noline --nounistd ./src/lexer.l ); fi
+if grep -q '^+++ b/Compiler/src/lexer\.l' $P; then ( cd $WT/Compiler && flex --outfile=./src/lex.yy.c --header-file=./include/lex.yy.h --noline --nounistd ./src/lexer.l ); fi
 for c in "$@"; do VERIF_REPO=$WT VERIF_EVIDENCE_DIR=$WT/_ev VERIF_NO_SELFTEST=1 /verif/check $c 2>&1 | grep -v "^  C[0-9][0-9]\.[A-Za-z0-9]* *ok \|^   units\|^   functions"; echo "exit=$?"; done
 git -C /repo worktree remove --force $WT; rm -rf $WT
